@@ -132,6 +132,8 @@ class Session:
             "stop_threads": a._stop_threads if a is not None else None,
             "queues": (len(a._recv_messages._q), len(a._send_messages._q)) if a is not None else None,
             "psm_running": self.d._peer_state_machine.is_running if self.d._peer_state_machine else None,
+            # a local stop asked for before the connection was Open (remembered by the node until it gets there)
+            "stop_req": bool(getattr(a, "stop_requested", False)) if a is not None else None,
             # base requests of the node that still await their answer (by command code)
             "pending": tuple(sorted(m.header.get_command_code() for m in list(a.pending_requests.values()))) if a is not None else None,
         }
@@ -340,7 +342,10 @@ def judge(role, prev, o, history_ctx):
         elif kind == "refuse" and ps == "Wait-Conn-Ack":
             allow({"Closed"}, "R3")
         elif ps == "Wait-I-CEA" and kind == "msg":
-            if what == "cea-echo":
+            if what == "cea-echo" and prev and prev.get("stop_req"):
+                # the application has already asked to stop: the connection may open only to be closed at once
+                allow({"I-Open", "Closing", "Closed"}, "R4")
+            elif what == "cea-echo":
                 allow({"I-Open"}, "R4")
             elif what == "cea-echo-2ip":
                 # a second Host-IP-Address is legitimate (RFC 6733: 1* { Host-IP-Address }); the statement only
@@ -578,7 +583,7 @@ class FsmModel:
         last_kind = st["history"][-1][0] if st["history"] and st["history"][-1][0] in ("start",) else ""
         return (o["state"], o["conn"], o["transport_released"], o["sock_closed"], o["sock_registered"],
                 tuple(n.rstrip("0123456789") for n in o["live"]), len(o["crashed"]), o["assoc_lock"], o["pp_lock"], o["tr_lock"],
-                o["state_is_active"], o["stop_threads"], o["queues"], o["psm_running"], o.get("pending"), min(starts, 2), last_kind)
+                o["state_is_active"], o["stop_threads"], o["queues"], o["psm_running"], o.get("pending"), o.get("stop_req"), min(starts, 2), last_kind)
 
 
 def configs(tier):
